@@ -258,6 +258,76 @@ func genC07WaitSites(o *out, pkgs map[string]map[string]*ast.File) {
 			}
 		}
 	}
+	// completion sites: `close(X.F)` of a completion channel (deferred or not) and assignments of the published error field
+	type c07cDone struct {
+		file, fn, kind, target, guard string
+		deferred                      bool
+		line                          int
+	}
+	var dones []c07cDone
+	for _, pkg := range []string{".", "schema"} {
+		var files []string
+		for fn := range pkgs[pkg] {
+			files = append(files, fn)
+		}
+		sort.Strings(files)
+		for _, fname := range files {
+			if strings.HasSuffix(fname, "_test.go") {
+				continue
+			}
+			rel := fname
+			if i := strings.LastIndex(rel, "/"); i >= 0 {
+				rel = rel[i+1:]
+			}
+			if pkg != "." {
+				rel = pkg + "/" + rel
+			}
+			for _, d := range pkgs[pkg][fname].Decls {
+				fd, ok := d.(*ast.FuncDecl)
+				if !ok || fd.Body == nil {
+					continue
+				}
+				fn := c07cFuncName(fd)
+				var stack []ast.Node
+				ast.Inspect(fd.Body, func(n ast.Node) bool {
+					if n == nil {
+						stack = stack[:len(stack)-1]
+						return true
+					}
+					stack = append(stack, n)
+					guard := func() string {
+						for i := len(stack) - 2; i >= 0; i-- {
+							if ifs, ok := stack[i].(*ast.IfStmt); ok && i+1 < len(stack) && stack[i+1] == ast.Node(ifs.Body) {
+								return strings.ReplaceAll(src(ifs.Cond), " ", "")
+							}
+						}
+						return ""
+					}
+					switch x := n.(type) {
+					case *ast.CallExpr:
+						if id, ok := x.Fun.(*ast.Ident); ok && id.Name == "close" && len(x.Args) == 1 {
+							if sel, ok := x.Args[0].(*ast.SelectorExpr); ok && (sel.Sel.Name == "prepared" || sel.Sel.Name == "initialized") {
+								def := false
+								if len(stack) >= 2 {
+									if ds, ok := stack[len(stack)-2].(*ast.DeferStmt); ok && ds.Call == x {
+										def = true
+									}
+								}
+								dones = append(dones, c07cDone{file: rel, fn: fn, kind: "close", target: src(sel), guard: guard(), deferred: def, line: fset.Position(x.Pos()).Line})
+							}
+						}
+					case *ast.AssignStmt:
+						for _, l := range x.Lhs {
+							if sel, ok := l.(*ast.SelectorExpr); ok && sel.Sel.Name == "prepareErr" {
+								dones = append(dones, c07cDone{file: rel, fn: fn, kind: "seterr", target: src(sel) + " = " + src(x.Rhs[0]), guard: guard(), line: fset.Position(x.Pos()).Line})
+							}
+						}
+					}
+					return true
+				})
+			}
+		}
+	}
 	var b strings.Builder
 	b.WriteString("structure WaitSite where\n  file : String\n  fn : String\n  line : Nat\n  chan : String\n  recv : String\n  inGo : Bool\n  branch : String\n  after : String\n  errField : String\n  errOf : String\n  retVal : String\nderiving Repr, DecidableEq\n\n")
 	b.WriteString("/-- root + schema packages: every bare receive `<-X.F` (wait for the goroutine that builds X) and what follows it:\n    \"if-err-return\" = `if X.E != nil { return …, X.E }`, \"return-with-err\" = `return V, X.E`, \"if-nil-guard\" = `if X.G != nil {…}`,\n    \"none\"; `branch` = kind of the last Mux.Lock()/RLock() call before the site; `retVal` = value returned on the success path -/\ndef waitSites : List WaitSite := [\n")
@@ -279,7 +349,18 @@ func genC07WaitSites(o *out, pkgs map[string]map[string]*ast.File) {
 			lstr(c.file), lstr(c.fn), c.line, lstr(c.stmtVar), lstr(c.errVar), lstr(c.guard))
 	}
 	b.WriteString("\n]\n")
+	b.WriteString("\nstructure CompletionSite where\n  file : String\n  fn : String\n  line : Nat\n  kind : String\n  target : String\n  guard : String\n  deferred : Bool\nderiving Repr, DecidableEq\n\n")
+	b.WriteString("/-- how a builder tells its waiters that it is done: every `close(X.prepared)` / `close(X.initialized)` (kind \"close\", `deferred` = it is the\n    call of a `defer` statement, so it runs on every return path) and every assignment of `prepareErr` (kind \"seterr\") with the condition\n    of the innermost enclosing `if` -/\ndef completionSites : List CompletionSite := [\n")
+	for i, d := range dones {
+		if i > 0 {
+			b.WriteString(",\n")
+		}
+		fmt.Fprintf(&b, "  { file := %s, fn := %s, line := %d, kind := %s, target := %s, guard := %s, deferred := %s }",
+			lstr(d.file), lstr(d.fn), d.line, lstr(d.kind), lstr(d.target), lstr(d.guard), lbool(d.deferred))
+	}
+	b.WriteString("\n]\n")
 	o.write("WaitSites", b.String())
 	o.facts["c07WaitSites"] = len(waits)
 	o.facts["c07PrepareCallSites"] = len(calls)
+	o.facts["c07CompletionSites"] = len(dones)
 }
